@@ -12,7 +12,7 @@
     say 3 and 2, so they stop checking when the source says anything else. *)
 From Coq Require Import List ZArith Bool Permutation String.
 From Paloma Require Import Base.Num Cons.Median Cons.MedianProofs Cons.Quorum Cons.QuorumProofs.
-From Paloma Require Cons.EvidenceBytes Cons.EvidenceBytesProofs Cons.EvidenceHistory Cons.EvidenceHistoryProofs.
+From Paloma Require Cons.EvidenceBytes Cons.EvidenceBytesProofs Cons.EvidenceHistory Cons.EvidenceHistoryProofs Cons.QuorumMembers.
 From Paloma Require Gen.C04.
 Import ListNotations.
 Open Scope Z_scope.
@@ -297,6 +297,54 @@ Proof.
          (@EvidenceHistoryProofs.attestation_run_never_fails K keqb h ops sn ord)).
 Qed.
 Print Assumptions attestation_run_never_fails_on_stored_evidence.
+
+(** ---- third round ---- *)
+
+(** A decision rests on at least one member of the snapshot, whatever the recorded total is (zero,
+    negative): a winner has a backer with the winner's key inside the snapshot, submissions of
+    outsiders only never decide, an elected estimate has a submitter inside the snapshot.
+    (consensusPower's running sum exists only after the first [add]; seeded change C04-E.) *)
+Theorem decisions_have_a_snapshot_member :
+  (forall (K : Type) (keqb : K -> K -> bool) (gk : Z -> Z -> K),
+   (forall a b, keqb a b = true <-> a = b) ->
+   forall (ord : list group -> list group) (sn : snapshot) (evs : list evidence) (w : evidence),
+   (forall gs, Permutation (ord gs) gs) ->
+   verify_evidence keqb gk ord sn evs = Winner w ->
+   exists e, In e evs /\ insider (sn_vals sn) (ev_val e) = true /\ ev_key gk e = ev_key gk w) /\
+  (forall (K : Type) (keqb : K -> K -> bool) (gk : Z -> Z -> K) ord sn evs,
+   existsb (fun e => insider (sn_vals sn) (ev_val e)) evs = false ->
+   verify_evidence keqb gk ord sn evs = NotAchieved) /\
+  (forall sn es w, verify_gas_estimates sn es = Elected w ->
+   exists e, In e es /\ insider (sn_vals sn) (es_val e) = true).
+Proof.
+  exact (conj (@QuorumMembers.winner_has_snapshot_member)
+        (conj (@QuorumMembers.no_member_no_winner) QuorumMembers.elected_has_snapshot_member)).
+Qed.
+Print Assumptions decisions_have_a_snapshot_member.
+
+(** Between "evidence / estimates present" and the quorum decision there is no other gate: the early
+    exits of the wrappers that lead to VerifyEvidence / VerifyGasEstimates are exactly the ones the
+    models have ([att_step]: nothing without evidence — VerifyEvidence on no evidence is NotAchieved;
+    [process_estimates]: no estimation required, no estimates, already elected), the loops around them
+    only leave on errors, and nobody else calls the two functions.  A head-count pre-check (seeded
+    change C04-F) is a guard that is not in this list. *)
+Theorem quorum_decision_guards_are_of_current_source :
+  Gen.C04.attest_guards = ["len(msg.GetEvidence()) == 0"]%string /\
+  Gen.C04.attest_loop_guards = ["err != nil"; "err != nil"; "err != nil"]%string /\
+  Gen.C04.estimate_guards = ["!msg.GetRequireGasEstimation()"; "len(msg.GetGasEstimates()) < 1"; "msg.GetGasEstimate() > 0"]%string /\
+  Gen.C04.estimate_loop_guards = ["err != nil"; "err != nil"; "err != nil"]%string /\
+  Gen.C04.quorum_callers =
+    ["x/consensus/keeper/concensus_keeper.go:jailValidatorsWhichMissedAttestation->VerifyEvidence";
+     "x/consensus/keeper/estimate.go:checkAndProcessEstimatedMessage->VerifyGasEstimates";
+     "x/evm/keeper/attest.go:attestMessageWrapper->VerifyEvidence";
+     "x/skyway/abci.go:processGasEstimates->VerifyGasEstimates"]%string /\
+  (forall (K : Type) (keqb : K -> K -> bool) (gk : Z -> Z -> K) ord sn, verify_evidence keqb gk ord sn [] = NotAchieved) /\
+  (forall sn m, q_requires m = false \/ q_estimates m = [] \/ 0 < q_elected m -> process_estimates sn m = m).
+Proof.
+  exact (conj eq_refl (conj eq_refl (conj eq_refl (conj eq_refl (conj eq_refl
+    (conj (fun K keqb gk ord sn => eq_refl) QuorumMembers.process_estimates_guards)))))).
+Qed.
+Print Assumptions quorum_decision_guards_are_of_current_source.
 
 
 (* --- source translation tie (GenFn) --- *)
